@@ -7039,8 +7039,6 @@ ZSTD_compressSequences_internal(ZSTD_CCtx* cctx,
             U32 cBlockHeader;
             /* Error checking and repcodes update */
             ZSTD_blockState_confirmRepcodesAndEntropyTables(&cctx->blockState);
-            if (cctx->blockState.prevCBlock->entropy.fse.offcode_repeatMode == FSE_repeat_valid)
-                cctx->blockState.prevCBlock->entropy.fse.offcode_repeatMode = FSE_repeat_check;
 
             /* Write block header into beginning of block*/
             cBlockHeader = lastBlock + (((U32)bt_compressed)<<1) + (U32)(compressedSeqsSize << 3);
@@ -7048,6 +7046,10 @@ ZSTD_compressSequences_internal(ZSTD_CCtx* cctx,
             cBlockSize = ZSTD_blockHeaderSize + compressedSeqsSize;
             DEBUGLOG(5, "Writing out compressed block, size: %zu", cBlockSize);
         }
+        /* A dictionary's offset code table is only known to hold the codes that the first block can need.
+         * After that block, whatever its type (see ZSTD_compressBlock_internal()), it must be checked before it is reused. */
+        if (cctx->blockState.prevCBlock->entropy.fse.offcode_repeatMode == FSE_repeat_valid)
+            cctx->blockState.prevCBlock->entropy.fse.offcode_repeatMode = FSE_repeat_check;
 
         cSize += cBlockSize;
 
